@@ -48,6 +48,37 @@ Qed.
 Theorem C06_search_overwrite_refuted :
   exists g cs target m', reach g cs target /\ search_w (S (length g)) g cs target [] = Some (false, m').
 Proof. exact search_w_incomplete. Qed.
+(** the decision of [exit_scc]: a caller that finds its callee computing is marked as a cycle member
+    (and unwound with the cyclic error, taking its default) EXACTLY when it closes a cycle - when the
+    caller is reachable from the callees of the callee through computing queries - whatever marks
+    the callee already carries; for the rule the current source has (read from the source on every
+    run).  The shortcut "the callee is already marked, so the caller is on the cycle too" is refuted
+    by a reader of a cycle member (CycA = 0 reads CycB = 1 and Slow = 2, CycB reads CycA, the
+    caller Reader = 3 is outside): it would take the reader's own default. *)
+Definition exit_marks_with (rule : mark_rule) (fuel : nat) (g : graph) (callee_marked : bool) (callee_cs : list N) (caller : N) : option bool :=
+  match rule with
+  | MarkBySearch => option_map fst (search_v fuel g callee_cs caller [])
+  | MarkBySearchOrCalleeMarked => if callee_marked then Some true else option_map fst (search_v fuel g callee_cs caller [])
+  | MarkUnknown => None
+  end.
+Theorem C06_exit_marks_exactly_cycle_closers :
+  forall g callee_marked callee_cs caller,
+    exists b, exit_marks_with exit_mark_rule (S (length g)) g callee_marked callee_cs caller = Some b /\ (b = true <-> reach g callee_cs caller).
+Proof.
+  intros g mk cs caller.
+  change exit_mark_rule with MarkBySearch.     (* fails if exit_scc no longer decides by the search alone *)
+  unfold exit_marks_with.
+  destruct (search_v_correct g cs caller) as (b & m & E & H). exists b. rewrite E. split; [reflexivity|exact H].
+Qed.
+Theorem C06_exit_mark_shortcut_refuted :
+  exists g callee_cs caller,
+    ~ reach g callee_cs caller /\ exit_marks_with MarkBySearchOrCalleeMarked (S (length g)) g true callee_cs caller = Some true.
+Proof.
+  exists [(0, [1; 2]); (1, [0])], [1; 2], 3. split; [|reflexivity].
+  destruct (search_v_correct [(0, [1; 2]); (1, [0])] [1; 2] 3) as (b & m & E & H).
+  vm_compute in E. injection E as <- _. intro R. apply H in R. discriminate R.
+Qed.
+
 (** on acyclic computing graphs (the evaluation stack and its pending callees) every entry of the
     memo table - hence every cycle mark - is exact too; on a graph with a cycle among computing
     queries an entry can be [false] for a query that does reach the target ([search_v_memo_inexact]) *)
@@ -130,6 +161,8 @@ Check cex_spec.      (* the spec values, obtained by applying the theorem: its p
 Print Assumptions C06_search_terminates.
 Print Assumptions C06_search_answer_correct.
 Print Assumptions C06_search_overwrite_refuted.
+Print Assumptions C06_exit_marks_exactly_cycle_closers.
+Print Assumptions C06_exit_mark_shortcut_refuted.
 Print Assumptions C06_search_marks_exact_on_dags.
 Print Assumptions C06_cyc_spec_deterministic.
 Print Assumptions C06_fresh_cyclic_program_takes_defaults.
